@@ -551,6 +551,7 @@ class YAMLPath:
                         (segment_type,
                             CollectorTerms(segment_id, collector_operator)))
                     segment_id = ""
+                    segment_type = None
                     collector_operator = CollectorOperators.NONE
                     seeking_collector_operator = True
                     continue
